@@ -18,7 +18,11 @@ TEMPLATES = {
     "sizeZeroMax": ("T ::= SEQUENCE (SIZE({lb}..MAX)) OF BOOLEAN", {"lb": 0}),
     "intZeroMax": ("T ::= INTEGER ({lb}..MAX)", {"lb": 0}),
     "sizeOneMax": ("T ::= OCTET STRING (SIZE({lb}..MAX))", {"lb": 1}),
+    # the value reference is spelled like an enumeration item that is used as DEFAULT next to it: two name spaces
+    "seqEnumClash": ("Level ::= ENUMERATED {{ low, medium, high }}\nT ::= SEQUENCE {{ f1 INTEGER (0..{ub}), level Level DEFAULT medium }}", {"ub": 7}),
 }
+# names of the value references where the default "r<slot>" is not wanted
+REF_NAMES = {"seqEnumClash": {"ub": "medium"}}
 
 
 def lit(v):
@@ -53,7 +57,7 @@ def build(case):
     """Module texts by module name for one case."""
     tpl, vals = TEMPLATES[case["tpl"]]
     refs = case["refs"]
-    names = {s: "r" + s for s in refs}
+    names = {s: REF_NAMES.get(case["tpl"], {}).get(s, "r" + s) for s in refs}
     body = tpl.format(**{s: (names[s] if s in refs else lit(v)) for s, v in vals.items()})
     neg = case["neg"] or None
     defs = [vref(names[s], vals[s], neg) for s in refs] if neg != "missing" else []
